@@ -92,7 +92,7 @@ def run_shard(sh):
                 b = mutate.random_mutation(b, rng)[:4077] if rng.random() < 0.8 else b
                 fuzz['FZ%d' % j] = frame(t, b)
             register_fuzz(fuzz)
-            alpha = ['OPEN', 'KA', 'OPEN_h9', 'NOTI_CEASE', 'BADLEN'] + sorted(fuzz) + S.open_alphabet(rng, 30)
+            alpha = ['OPEN', 'KA', 'OPEN_h9', 'NOTI_CEASE', 'BADLEN'] + sorted(fuzz) + S.open_alphabet(rng, 30) + S.noti_alphabet(rng, 30)
             weights.update(OPEN=20, KA=20)
         for i in range(sh['n']):
             if budget.expired():
